@@ -40,6 +40,8 @@ structure Leaf (I : State → Prop) : Prop extends LeafW I where
   setStopping : Pres I setStopping
   setRestarting : Pres I setRestarting
   setLoopStop : ∀ b, Pres I (setLoopStop b)
+  setSocketEvent : ∀ b, Pres I (setSocketEvent b)
+  setSockReady : ∀ b, Pres I (setSockReady b)
   clearDone : Pres I clearDone
   unregister : ∀ u, Pres I (unregisterWatcher u)
   registerNew : ∀ w, w.pids = [] → Pres I (registerNew w)    -- a new watcher object lists no process
@@ -66,7 +68,7 @@ attribute [aesop safe apply (rule_sets := [Pres])] Pres.bind Pres.ite Pres.for_i
 attribute [aesop safe apply (rule_sets := [Pres])] LeafK.emit Leaf.setStatus Leaf.trySetNp Leaf.spawnAdopt LeafW.popPid
   LeafW.bumpHook Leaf.setWOpt LeafW.setObjStopping LeafW.setRc LeafW.markBlocked LeafW.emitEv Leaf.freshId Leaf.pushFrame
   Leaf.removeFrame Leaf.setFrameK Leaf.armFrame Leaf.pushSleeper Leaf.armTop Leaf.setClosed Leaf.setStopping
-  Leaf.setRestarting Leaf.setLoopStop Leaf.clearDone Leaf.unregister Leaf.fireSleeper
+  Leaf.setRestarting Leaf.setLoopStop Leaf.setSocketEvent Leaf.setSockReady Leaf.clearDone Leaf.unregister Leaf.fireSleeper
   Leaf.enqueueResume Leaf.enqueueCallback
 attribute [aesop safe apply (rule_sets := [Pres])] SpecCore.deliverTop SpecCore.syncSetOpt SpecCore.syncAdd
 
@@ -250,6 +252,9 @@ theorem spawnProcess_pres (S : SpecCore I) (rec : Rec) (hrec : ∀ t, Pres I (re
   have L := S.toLeaf
   unfold spawnProcess; aesop (add safe apply hrec) (rule_sets := [Pres]) (config := { terminal := true, useDefaultSimpSet := false, useSimpAll := false, maxRuleApplications := 3000 })
 @[aesop safe apply (rule_sets := [Pres])]
+theorem pendingSocketEvent_pres (L : Leaf I) (u : Nat) : Pres I (pendingSocketEvent u) := by
+  unfold pendingSocketEvent; pres
+@[aesop safe apply (rule_sets := [Pres])]
 theorem spawnLoop_pres (S : SpecCore I) (rec : Rec) (hrec : ∀ t, Pres I (rec t)) (wuid rem : Nat) (wt : Waiter) : Pres I (spawnLoop rec wuid rem wt) := by
   have L := S.toLeaf
   unfold spawnLoop; aesop (add safe apply hrec) (rule_sets := [Pres]) (config := { terminal := true, useDefaultSimpSet := false, useSimpAll := false, maxRuleApplications := 3000 })
@@ -345,6 +350,11 @@ theorem manageWatchers_pres (S : SpecCore I) (rec : Rec) (hrec : ∀ t, Pres I (
 theorem rmWatcher_pres (S : SpecCore I) (rec : Rec) (hrec : ∀ t, Pres I (rec t)) (uid : Nat) (ns : Bool) (wt : Waiter) : Pres I (rmWatcher rec uid ns wt) := by
   have L := S.toLeaf
   unfold rmWatcher; aesop (add safe apply hrec) (rule_sets := [Pres]) (config := { terminal := true, useDefaultSimpSet := false, useSimpAll := false, maxRuleApplications := 3000 })
+@[aesop safe apply (rule_sets := [Pres])]
+theorem manageWatchersTail_pres (S : SpecCore I) (rec : Rec) (hrec : ∀ t, Pres I (rec t)) (need : Bool) (wt : Waiter) : Pres I (manageWatchersTail rec need wt) := by
+  have L := S.toLeaf
+  have hnt : Pres I (newTop [TopCb.watch]) := S.newTopNR _ (by simp)
+  unfold manageWatchersTail; aesop (add safe apply hrec, safe apply hnt) (rule_sets := [Pres]) (config := { terminal := true, useDefaultSimpSet := false, useSimpAll := false, maxRuleApplications := 3000 })
 @[aesop safe apply (rule_sets := [Pres])]
 theorem runCall_pres (S : SpecCore I) (rec : Rec) (hrec : ∀ t, Pres I (rec t)) (c : Call) (wt : Waiter) : Pres I (runCall rec c wt) := by
   have L := S.toLeaf
